@@ -70,3 +70,14 @@ def run(ctx):
             if callee_is(t, 'oneshot::Sender::send'):
                 sh = value_shapes(ctx, P, P.operand(g, t['args'][1], at=bb))
                 R.ob('C05.expiry', ('client table expiry', 'delivers an error'), sh <= {'Err'}, 'an expired call resolves with an error, never Ok', [g.loc(t)], str(sorted(sh)))
+    # (4) the timer source is polled (registered) on every way the dispatch goes idle — no exemption for a transport that is not ready
+    from .wake import source_jobs, pending_states, source_ok
+    from .shape_common import run_jobs
+    poll_, reach_, jobs = source_jobs(F, P, ('T',))
+    res = run_jobs(F, jobs)
+    keys = pending_states(res['T'])
+    bad = [k for k in keys if not source_ok('T', k)]
+    R.ob('C05.poll', ('dispatch poll', 'deadline timers registered on every idle return'), not bad and len(keys) >= 2,
+         'every Pending exit of the dispatch has polled the deadline timers last with Pending (or none are armed), also while the transport is not ready: an expiry is never delayed by back-pressure',
+         [poll.loc(poll.d)], 'offending exit states (last timer outcome, w_wait, drain, at_capacity): %s' % bad)
+    R.count('states_explored', res['T']['stats'].get('states', 0))
